@@ -105,7 +105,7 @@ PROFILES = {
         "weights": {"ntab": 8, "nadd": 3, "nprobe": 26, "nview": 8, "nsetname": 10, "nalias": 2, "nsetattr": 3,
                     "rencol": 8, "rencols": 4, "tsel": 2, "drop": 2, "copy": 1},
         "core": ["ntab", "nprobe", "nview", "nsetname", "rencol"],
-        "knobs": {"max_objs": [4, 6, 8], "p_dupname": [0.0, 0.15, 0.35], "max_cols": [2, 4, 6],
+        "knobs": {"max_objs": [4, 6, 8], "p_dupname": [0.0, 0.15, 0.35], "max_cols": [2, 4, 6], "p_werr": [0.0, 0.0, 0.08, 0.2],
                   "probe_w": [[3, 3, 2, 4, 3, 2], [1, 1, 1, 6, 4, 1], [4, 4, 2, 1, 1, 2]]},
         "steps": (12, 45),
     },
